@@ -437,6 +437,34 @@ Section Strict.
     - eapply suffix_slice; [| |exact E2]; lia.
   Qed.
 
+
+  Lemma vscan_spec od cd l : forall depth n m, vscan od cd l depth n = Some m ->
+    exists k, m = n + k /\ nth_error l k = Some cd.
+  Proof.
+    induction l as [|c r IH]; intros depth n m H; cbn [vscan] in H; [discriminate|].
+    destruct (N.eqb c cd) eqn:E.
+    - destruct depth as [|[|d']].
+      + injection H as <-. exists 0. apply N.eqb_eq in E. subst. split; [lia|reflexivity].
+      + injection H as <-. exists 0. apply N.eqb_eq in E. subst. split; [lia|reflexivity].
+      + apply IH in H. destruct H as (k & -> & Hk). exists (S k). split; [lia|exact Hk].
+    - destruct (N.eqb c od); apply IH in H; destruct H as (k & -> & Hk); exists (S k); (split; [lia|exact Hk]).
+  Qed.
+
+  Lemma nth_error_skipn_add {A} (l : list A) a k : nth_error (skipn a l) k = nth_error l (a + k).
+  Proof.
+    revert l. induction a as [|a IH]; intros l; [reflexivity|].
+    destruct l as [|x l]; [destruct k; reflexivity|]. cbn [skipn Nat.add nth_error]. apply IH.
+  Qed.
+
+  Lemma verb_delims_od d c0 od cd : verb_delims d c0 = Some (od, cd) -> od = c0.
+  Proof.
+    unfold verb_delims. destruct d as [[o c]|].
+    - destruct o as [|o1 [|? ?]]; try discriminate. destruct c as [|c1 [|? ?]]; try discriminate.
+      destruct (N.eqb c0 o1) eqn:E; [|discriminate]. intros H. injection H as <- _.
+      apply N.eqb_eq in E. congruence.
+    - intros H. injection H as <- _. reflexivity.
+  Qed.
+
   Section WithFuel.
     Variable f : nat.
     Hypothesis IH : forall t, task_pre t -> post t (run s false cx f t).
@@ -695,5 +723,333 @@ Section Strict.
       - (* specials *)
         apply FIN; [|reflexivity]. rewrite wf_specials. cbn [chain wf_items]. repeat split; auto; lia.
     Qed.
+
+    Lemma chars_step ps ch aps full pos : task_pre (TChars ps ch aps full pos) ->
+      post (TChars ps ch aps full pos) (run s false cx (S f) (TChars ps ch aps full pos)).
+    Proof.
+      intros (PL & G & CH). cbn [task_pos] in PL. cbn [post run]. rewrite peek_tok_strict.
+      pose proof (good_peek s ps pos G PL) as TF.
+      destruct (impl_peek ps s pos) as [t|fin|e]; [| |exact I].
+      2: { cbn [res_post]. unfold in_range. lia. }
+      pose proof TF as [F1 F2 F3 F4 F5 F6].
+      assert (BK : tpos t - length (tpre t) = pos) by lia. rewrite BK.
+      assert (NONE : res_post pos (onode_res pos) (in_range pos) (Ok (ONode None) pos)).
+      { cbn [res_post onode_res]. repeat split; lia. }
+      destruct (_ && negb aps); [exact NONE|].
+      assert (SOME : targ t = slice s (tpos t) (tend t) \/ targ t = [10; 10]%N ->
+        res_post pos (onode_res pos) (in_range pos)
+          match targ t with
+          | [] => REOS pos
+          | _ :: _ =>
+              if str_eqb (targ t) ch
+              then Ok (ONode (Some (if full then mk_nodelist None None [Some (mk_chars ps (tpos t) (tend t) ch)]
+                                    else mk_chars ps (tpos t) (tend t) ch))) (tend t)
+              else Ok (ONode None) pos
+          end).
+      { intros TX. destruct (targ t) as [|a0 ar] eqn:TA.
+        - cbn [res_post]. unfold in_range. lia.
+        - destruct (str_eqb (a0 :: ar) ch) eqn:SE; [|exact NONE].
+          apply sp_str_eqb_eq in SE.
+          assert (CE : ch = slice s (tpos t) (tend t)).
+          { destruct TX as [TX|TX]; [congruence|]. rewrite <- SE, TX in CH. discriminate. }
+          assert (WC : wf_node s (mk_chars ps (tpos t) (tend t) ch)).
+          { cbn [mk_chars wf_node]. repeat split; auto; lia. }
+          cbn [res_post onode_res]. split; [lia|]. split; [exact F4|].
+          destruct full.
+          + split.
+            * unfold mk_nodelist. cbn [first_pos last_end rev app first_end mk_chars node_pos node_end].
+              rewrite wf_list. cbn [chain wf_items nspan node_pos node_end]. unfold nspan. cbn [node_pos node_end].
+              repeat split; auto; lia.
+            * exists (tpos t). split; [reflexivity|lia].
+          + split; [exact WC|]. exists (tpos t). split; [reflexivity|lia]. }
+      unfold tok_txt in F5.
+      destruct (tk t) eqn:K; try exact NONE.
+      - apply SOME. left. exact F5.
+      - apply SOME. exact F5.
+    Qed.
+
+    Lemma verb_step_ok ps d pos : task_pre (TVerbDelim ps d pos) ->
+      post (TVerbDelim ps d pos) (run s false cx (S f) (TVerbDelim ps d pos)).
+    Proof.
+      intros (PL & _). cbn [task_pos] in PL. cbn [post]. rewrite run_verb. unfold verb_step. cbn zeta.
+      destruct (peek_space_spec s pos PL) as (A & _ & C). cbn zeta in A, C.
+      set (p0 := snd (peek_space s pos)) in *.
+      destruct (nth_error s p0) as [c0|] eqn:N0.
+      2: { cbn [res_post]. unfold in_range. lia. }
+      destruct (verb_delims d c0) as [[od cd]|] eqn:VD; [|exact I].
+      apply verb_delims_od in VD. subst od.
+      destruct (vscan c0 cd (skipn (S p0) s) 1 0) as [n|] eqn:SC; [|exact I].
+      apply vscan_spec in SC. destruct SC as (k & -> & NK). cbn [Nat.add] in *.
+      rewrite nth_error_skipn_add in NK.
+      assert (KL : S p0 + k < L) by (apply nth_error_Some; congruence).
+      cbn [res_post onode_res]. split; [lia|]. split; [lia|]. split.
+      - rewrite wf_group. unfold mk_nodelist, mk_chars.
+        cbn [first_pos last_end rev app first_end node_pos node_end body_items body_in chain nspan].
+        split; [lia|]. split; [lia|]. split; [lia|]. split; [lia|]. split; [|split].
+        + rewrite wf_list. cbn [chain wf_items wf_node nspan node_pos node_end].
+          repeat split; auto; lia.
+        + eapply prefix_slice; [| |symmetry; apply slice_one; exact N0]; lia.
+        + eapply suffix_slice; [| |symmetry; apply slice_one; exact NK]; lia.
+      - exists p0. split; [reflexivity|lia].
+    Qed.
+
+    Lemma stdarg_step ps k pos : task_pre (TStdArg ps k pos) ->
+      post (TStdArg ps k pos) (run s false cx (S f) (TStdArg ps k pos)).
+    Proof.
+      intros (PL & G & KO). cbn [task_pos] in PL. cbn [post run]. rewrite parse_content_strict.
+      destruct k as [aps|o c opt aps|ch aps full|d].
+      - assert (PRE : task_pre (TExpr ps aps aps false true [] pos)) by (split; cbn; auto).
+        pose proof (IH _ PRE eq_refl) as P.
+        destruct (run s false cx f (TExpr ps aps aps false true [] pos)); cbn [res_post] in P |- *; auto.
+        unfold in_range in P. cbn [onode_res]. tauto.
+      - assert (PRE : task_pre (TGroup ps (GDPair o c) opt aps pos)) by (split; cbn; auto).
+        pose proof (IH _ PRE) as P. cbn [post] in P.
+        destruct (run s false cx f (TGroup ps (GDPair o c) opt aps pos)) as [o1 p1|e p1|p1|k1|];
+          cbn [res_post] in P |- *; auto.
+        + destruct P as (A & B & C). split; [exact A|]. split; [exact B|].
+          destruct o1 as [[n|]| |]; cbn [onode_res]; auto.
+          destruct C as (W & a & SP & LE & _). split; [exact W|]. exists a. auto.
+        + destruct P as (-> & _). cbn [onode_res]. repeat split; lia.
+      - cbn [kind_ok] in KO. apply Nat.eqb_eq in KO.
+        assert (PRE : task_pre (TChars ps ch aps full pos)) by (split; cbn; auto).
+        pose proof (IH _ PRE) as P. cbn [post] in P.
+        destruct (run s false cx f (TChars ps ch aps full pos)); cbn [res_post] in P |- *; auto.
+        unfold in_range in P. cbn [onode_res]. tauto.
+      - assert (PRE : task_pre (TVerbDelim ps d pos)) by (split; cbn; auto).
+        pose proof (IH _ PRE) as P. cbn [post] in P.
+        destruct (run s false cx f (TVerbDelim ps d pos)); cbn [res_post] in P |- *; auto.
+        unfold in_range in P. cbn [onode_res]. tauto.
+    Qed.
+
+    Lemma args_step ps specs acc pos : task_pre (TArgs ps specs acc pos) ->
+      post (TArgs ps specs acc pos) (run s false cx (S f) (TArgs ps specs acc pos)).
+    Proof.
+      intros (PL & G & KO). cbn [task_pos] in PL. cbn [post run]. intros lo CH W.
+      destruct specs as [|a rest].
+      - cbn [res_post]. split; [lia|]. split; [exact PL|]. exists acc. auto.
+      - cbn [forallb] in KO. apply andb_true_iff in KO. destruct KO as [KA KR].
+        destruct (peek_tok s false ps pos); [| |exact I].
+        all: (assert (PRE : task_pre (TStdArg (apply_adelta ps (a_delta a)) (a_kind a) pos))
+               by (split; cbn; auto using good_adelta);
+              pose proof (IH _ PRE) as P; cbn [post] in P; rewrite parse_content_strict;
+              destruct (run s false cx f (TStdArg (apply_adelta ps (a_delta a)) (a_kind a) pos)) as [o1 p1|e p1|p1|k1|];
+                cbn [res_post] in P |- *; auto; [|destruct P];
+              destruct P as (A & B & C); destruct o1 as [n| |]; try exact I;
+              assert (PRE2 : task_pre (TArgs ps rest (acc ++ [n]) p1)) by (split; cbn; auto);
+              pose proof (IH _ PRE2) as P2; cbn [post] in P2;
+              eapply res_post_weaken; [apply P2|exact A]).
+        all: try (apply wf_items_snoc_o; [exact W|]; destruct n as [n|]; [apply C|exact I]).
+        all: destruct n as [n|];
+          [ destruct C as (WN & a0 & SP & LE); destruct (wf_span_le s n a0 p1 WN SP) as [Q1 Q2];
+            eapply chain_snoc; eauto; lia
+          | apply chain_snoc_none; eapply chain_weaken; eauto ].
+    Qed.
+
+    Definition legacy_okP (pos : nat) (o : out) (p : nat) : Prop :=
+      exists sp l, o = OArgs (Some (sp, l)) /\ chain pos p l /\ wf_items s l.
+
+    Lemma legacy_tail ps pos endcode sp al p : pos <= p -> p <= L -> chain pos p al -> wf_items s al ->
+      res_post pos (legacy_okP pos) never
+        match sfind s endcode p with
+        | None => PErr (mkerr (Some p) 21 None false None None) pos
+        | Some e => Ok (OArgs (Some (sp ++ [[123%N]], al ++ [Some (mk_chars ps p e (slice s p e))]))) e
+        end.
+    Proof.
+      intros H1 H2 CH W. unfold sfind. destruct (find_from s endcode p) as [e|] eqn:F; [|exact I].
+      apply find_from_bound in F. destruct F as [F1 F2].
+      cbn [res_post]. split; [lia|]. split; [lia|]. eexists _, _. split; [reflexivity|]. split.
+      - eapply chain_snoc; [exact CH|reflexivity| | |]; lia.
+      - apply wf_items_snoc; [exact W|]. cbn [mk_chars wf_node]. repeat split; auto; lia.
+    Qed.
+
+    Lemma legacy_step ps k pos : task_pre (TLegacyArgs ps k pos) ->
+      post (TLegacyArgs ps k pos) (run s false cx (S f) (TLegacyArgs ps k pos)).
+    Proof.
+      intros (PL & G). cbn [task_pos] in PL. cbn [post run]. fold (legacy_okP pos).
+      destruct k as [|name optarg].
+      - destruct (peek_space_spec s pos PL) as (A & _ & C). cbn zeta in A, C.
+        set (p1 := snd (peek_space s pos)) in *.
+        destruct (nth_error s p1) as [dc|]; [|exact I].
+        unfold sfind. destruct (find_from s [dc] (S p1)) as [e|] eqn:F; [|exact I].
+        apply find_from_bound in F. cbn [length] in F. destruct F as [F1 F2].
+        cbn [res_post]. split; [lia|]. split; [lia|]. eexists _, _. split; [reflexivity|].
+        cbn [chain wf_items mk_chars wf_node nspan node_pos node_end]. repeat split; auto; lia.
+      - set (endcode := ([92; 101; 110; 100; 123]%N ++ name ++ [125%N])).
+        assert (GRP : res_post pos (legacy_okP pos) never
+          match
+            match parse_content false (run s false cx f (TGroup ps (GDPair [91%N] [93%N]) true false pos)) with
+            | Ok (ONode n) p => Ok ([[91%N]], [n], p) p
+            | Ok _ p => RExn 9
+            | PErr e p => PErr e p | REOS p => REOS p | RExn k2 => RExn k2
+            | OutOfFuel => OutOfFuel end
+          with
+          | Ok (sp, al, p) _ =>
+              match sfind s endcode p with
+              | None => PErr (mkerr (Some p) 21 None false None None) pos
+              | Some e => Ok (OArgs (Some (sp ++ [[123%N]], al ++ [Some (mk_chars ps p e (slice s p e))]))) e
+              end
+          | PErr e p => PErr e p | REOS p => REOS p | RExn k2 => RExn k2 | OutOfFuel => OutOfFuel
+          end).
+        { assert (PRE : task_pre (TGroup ps (GDPair [91%N] [93%N]) true false pos)) by (split; cbn; auto).
+          pose proof (IH _ PRE) as P. cbn [post] in P. rewrite parse_content_strict.
+          destruct (run s false cx f (TGroup ps (GDPair [91%N] [93%N]) true false pos)) as [o1 p1|e p1|p1|k1|];
+            cbn [res_post] in P |- *; auto.
+          - destruct P as (A & B & C). destruct o1 as [n| |]; try exact I.
+            apply legacy_tail; auto.
+            + destruct n as [n|]; cbn [chain]; [|lia]. destruct C as (W & a & SP & LE & _).
+              destruct (wf_span_le s n a p1 W SP) as [Q1 Q2]. rewrite SP. lia.
+            + destruct n as [n|]; cbn [wf_items]; [|exact I]. split; [apply C|exact I].
+          - destruct P as (-> & _). apply legacy_tail; cbn [chain wf_items]; auto. }
+        destruct optarg.
+        + destruct (nth_error s pos) as [c|]; [|exact GRP].
+          destruct (is_space c); [|exact GRP].
+          apply legacy_tail; cbn [chain wf_items]; auto.
+        + apply legacy_tail; cbn [chain wf_items]; auto.
+    Qed.
+
+    Lemma call_tail ps t sp pos spx l p : good ps -> tpos t <= pos -> pos <= p -> p <= L ->
+      chain pos p l -> wf_items s l ->
+      res_post pos (fun o p => match o with
+                               | ONode (Some n) => wf_node s n /\ nspan n = Some (tpos t, p)
+                               | _ => False end) never
+        match tk t with
+        | TkBeginEnv =>
+            match parse_content false
+                    (run s false cx f (TEnvBody (if sp_body_math sp then ps_enter_math ps None else ps) (targ t) p)) with
+            | Ok (ONode body) p2 => Ok (ONode (Some (NEnv (tpos t) p2 (ps_mode ps) (targ t) (Some (spx, l)) body))) p2
+            | Ok _ p2 => RExn 9
+            | PErr e p2 => PErr e p2 | REOS p2 => REOS p2 | RExn k => RExn k | OutOfFuel => OutOfFuel
+            end
+        | TkSpecials => Ok (ONode (Some (NSpecials (tpos t) p (ps_mode ps) (targ t) (Some (spx, l))))) p
+        | _ => Ok (ONode (Some (NMacro (tpos t) p (ps_mode ps) (targ t) (tpost t) (Some (spx, l))))) p
+        end.
+    Proof.
+      intros G TP H1 H2 CH W.
+      assert (CH' : chain (tpos t) p l) by (eapply chain_weaken; eauto).
+      assert (MAC : res_post pos (fun o p => match o with
+                               | ONode (Some n) => wf_node s n /\ nspan n = Some (tpos t, p)
+                               | _ => False end) never
+                 (Ok (ONode (Some (NMacro (tpos t) p (ps_mode ps) (targ t) (tpost t) (Some (spx, l))))) p)).
+      { cbn [res_post]. split; [lia|]. split; [lia|]. split; [|reflexivity].
+        rewrite wf_macro. repeat split; auto; lia. }
+      destruct (tk t); try exact MAC.
+      (* (the specials node has the same well-formedness clause as the macro node) *)
+      - set (bps := if sp_body_math sp then ps_enter_math ps None else ps).
+        assert (GB : good bps) by (unfold bps; destruct (sp_body_math sp); auto using good_enter_math).
+        assert (PRE : task_pre (TEnvBody bps (targ t) p)) by (split; cbn; auto).
+        pose proof (IH _ PRE) as P. cbn [post] in P. rewrite parse_content_strict.
+        destruct (run s false cx f (TEnvBody bps (targ t) p)) as [o1 p1|e p1|p1|k1|];
+          cbn [res_post] in P |- *; auto; [|destruct P].
+        destruct P as (A & B & pc & items & -> & T & WI & PC).
+        pose proof (tiles_le _ _ _ T) as TL.
+        split; [lia|]. split; [lia|]. split; [|reflexivity].
+        rewrite wf_env. cbn [arg_items body_items body_in nspan node_pos node_end].
+        split; [lia|]. split; [lia|]. split; [|split; [lia|split; [exact W|]]].
+        + eapply chain_app; [exact CH'|]. eapply chain_weaken; [apply tiles_chain; exact T|lia|lia].
+        + rewrite wf_list. split; [|exact WI]. split; [lia|]. split; [lia|]. apply tiles_chain; exact T.
+    Qed.
+
+    Lemma call_step ps t sp pos : task_pre (TCall ps t sp pos) ->
+      post (TCall ps t sp pos) (run s false cx (S f) (TCall ps t sp pos)).
+    Proof.
+      intros (PL & G & SO). cbn [task_pos] in PL. cbn [post run]. intros TP.
+      unfold spec_ok in SO.
+      destruct (sp_args sp) as [l0|k] eqn:SA; unfold parse_content_args; rewrite !parse_content_strict.
+      - assert (PRE : task_pre (TArgs ps l0 [] pos)) by (split; cbn; auto).
+        pose proof (IH _ PRE) as P. cbn [post] in P.
+        assert (C0 : chain pos pos []) by (cbn; lia). specialize (P pos C0 I).
+        destruct (run s false cx f (TArgs ps l0 [] pos)) as [o1 p1|e p1|p1|k1|];
+          cbn [res_post] in P |- *; auto; [|destruct P].
+        destruct P as (A & B & l & -> & CH & W).
+        apply call_tail; auto.
+      - assert (PRE : task_pre (TLegacyArgs ps k pos)) by (split; cbn; auto).
+        pose proof (IH _ PRE) as P. cbn [post] in P.
+        destruct (run s false cx f (TLegacyArgs ps k pos)) as [o1 p1|e p1|p1|k1|];
+          cbn [res_post] in P |- *; auto; [|destruct P].
+        destruct P as (A & B & spx & l & -> & CH & W).
+        apply call_tail; auto.
+    Qed.
   End WithFuel.
+
+  (** * Every task, every fuel *)
+  Theorem run_post : forall fuel t, task_pre t -> post t (run s false cx fuel t).
+  Proof.
+    induction fuel as [|f IH]; intros t PRE.
+    - cbn [run]. destruct t; cbn [post]; intros; exact I.
+    - destruct t.
+      + rewrite run_collect. apply collect_ok; assumption.
+      + apply general_step; assumption.
+      + apply group_step; assumption.
+      + apply math_step; assumption.
+      + apply envbody_step; assumption.
+      + apply expr_step_ok; assumption.
+      + apply chars_step; assumption.
+      + apply verb_step_ok; assumption.
+      + apply stdarg_step; assumption.
+      + apply args_step; assumption.
+      + apply legacy_step; assumption.
+      + apply call_step; assumption.
+  Qed.
+
+  Lemma good_walker : good (walker_state cx).
+  Proof. apply good_fresh; reflexivity. Qed.
+
+  (** the top-level parse, for every fuel *)
+  Theorem top_strict fuel a b items p :
+    parse_content false (run s false cx fuel (TGeneral (walker_state cx) top_opts 0))
+      = Ok (ONode (Some (NList a b items))) p ->
+    a = Some 0 /\ b = Some L /\ p = L /\ tiles 0 L items /\ wf_items s items.
+  Proof.
+    assert (PRE : task_pre (TGeneral (walker_state cx) top_opts 0)).
+    { split; cbn [task_pos]; [lia|]. split; [apply good_walker | exact I]. }
+    pose proof (run_post fuel _ PRE) as P. cbn [post] in P. rewrite parse_content_strict.
+    destruct (run s false cx fuel (TGeneral (walker_state cx) top_opts 0)) as [o1 p1|e p1|p1|k1|];
+      cbn [res_post] in P; try discriminate.
+    destruct P as (A & B & pc & it & -> & T & W & PC & RQ).
+    specialize (RQ eq_refl). cbn [top_opts g_stop g_nl] in RQ. destruct (RQ eq_refl) as [-> ->].
+    intros E. injection E as <- <- <- <-. auto.
+  Qed.
 End Strict.
+
+(** * The strict-mode theorems about [parse_top] *)
+Theorem parse_top_strict_tiles s cx a b items p : ctx_ok cx = true ->
+  parse_top s false cx (walker_state cx) = Ok (ONode (Some (NList a b items))) p ->
+  a = Some 0 /\ b = Some (length s) /\ p = length s /\ tiles 0 (length s) items.
+Proof.
+  intros CX H. unfold parse_top in H. apply (top_strict s cx CX) in H. tauto.
+Qed.
+
+Theorem parse_top_strict_wf s cx a b items p : ctx_ok cx = true ->
+  parse_top s false cx (walker_state cx) = Ok (ONode (Some (NList a b items))) p ->
+  wf_node s (NList a b items).
+Proof.
+  intros CX H. unfold parse_top in H. apply (top_strict s cx CX) in H.
+  destruct H as (-> & -> & _ & T & W). rewrite wf_list. split; [|exact W].
+  split; [lia|]. split; [lia|]. apply tiles_chain. exact T.
+Qed.
+
+Theorem parse_top_strict_verbatim s cx a b items p : ctx_ok cx = true ->
+  parse_top s false cx (walker_state cx) = Ok (ONode (Some (NList a b items))) p ->
+  concat (map (verbatim_o s) items) = s /\ verbatim s (NList a b items) = s.
+Proof.
+  intros CX H. unfold parse_top in H. apply (top_strict s cx CX) in H.
+  destruct H as (-> & -> & _ & T & W). split.
+  - rewrite (tiles_concat s 0 (length s) items T (le_n _)). apply slice_all.
+  - unfold verbatim, nspan. cbn [node_pos node_end]. apply slice_all.
+Qed.
+
+(** a strict parse that returns a value returns a positioned node list (never [None], never a lone node) *)
+Theorem parse_top_strict_shape s cx o p : ctx_ok cx = true ->
+  parse_top s false cx (walker_state cx) = Ok o p ->
+  exists items, o = ONode (Some (NList (Some 0) (Some (length s)) items)).
+Proof.
+  intros CX H. unfold parse_top in H. rewrite parse_content_strict in H.
+  assert (PRE : task_pre s (TGeneral (walker_state cx) top_opts 0)).
+  { split; cbn [task_pos]; [lia|]. split; [apply good_walker | exact I]. }
+  pose proof (run_post s cx CX (parse_fuel s) _ PRE) as P. cbn [post] in P.
+  destruct (run s false cx (parse_fuel s) (TGeneral (walker_state cx) top_opts 0)) as [o1 p1|e p1|p1|k1|];
+    cbn [res_post] in P; try discriminate; [|destruct P].
+  destruct P as (A & B & pc & it & -> & T & W & PC & RQ).
+  specialize (RQ eq_refl). cbn [top_opts g_stop g_nl] in RQ. destruct (RQ eq_refl) as [-> ->].
+  injection H as <- <-. eauto.
+Qed.
